@@ -58,6 +58,10 @@ Definition save_a {A} (s : asession) (k : reply -> prog A) : prog A :=
 (* the subject of an owner-less grant is the client id; harness clients are named c1..c9 *)
 Definition cname (i : id) : string := String "c" (String (ascii_of_N (48 + i)) EmptyString).
 
+(* ctx.ExportableSubject with the harness's pairwise function "pw:<client>:<sub>" *)
+Definition export_sub (c : client) (sub : string) : string :=
+  if c_pairwise c then "pw:" ++ cname (c_id c) ++ ":" ++ sub else sub.
+
 (* ---- client lookup and (abstract) authentication ---- *)
 Definition get_client (w : world) (i : id) : prog (option client) :=
   match find_client i (w_static w) with
@@ -412,7 +416,7 @@ Definition ptok_id (p : ptok) : id := match p with PExact h => h | _ => 0%N end.
 Definition userinfo (w : world) (now : Z) (r : ureq) : prog out :=
   if negb (u_has_header r) then Ret (OErr EInvalidToken) else
   match extract_id (u_tok r) with
-  | None => Ret (OErr EInvalidToken)
+  | None => Ret (OErr (match u_tok r with PForged _ _ => EOther | _ => EInvalidToken end))
   | Some tid =>
     Do (GByToken tid) (fun rp =>
     match rp with
@@ -425,7 +429,7 @@ Definition userinfo (w : world) (now : Z) (r : ureq) : prog out :=
         bind (get_client w (g_client g)) (fun oc =>
         match oc with
         | None => Ret (OErr EInvalidToken)
-        | Some c => Ret (OUserInfo (g_subject g))
+        | Some c => Ret (OUserInfo (export_sub c (g_subject g)))
         end)
       end
     | _ => Ret (OErr EInvalidRequest)
